@@ -410,3 +410,52 @@ func TestC20_Grid(t *testing.T) {
 	}
 	h.RunCases(t, "C20", cases, checkC20)
 }
+
+// TestC20_GridLarge: uncompressed messages larger than the decoders' 5 MiB inflation limit (the limit is about
+// DEFLATE expansion; full validation accepts such messages with the default configuration, so the pre-decode
+// must as well), and compressed messages that expand to just under the limit.
+func TestC20_GridLarge(t *testing.T) {
+	var cases []C20Case
+	pad := func(n int) string { return "<!--" + strings.Repeat("p", n) + "-->" }
+	for _, kind := range []string{"response", "LogoutResponse"} {
+		for vi, via := range []string{"skip", "assertions"} {
+			for si, size := range []int{5<<20 - 4096, 5<<20 + 1, 6 << 20} {
+				sp := h.BaseSP()
+				c := C20Case{SP: sp, Kind: kind, Source: "shaped"}
+				var root *etree.Element
+				var err error
+				if kind == "response" {
+					mode := "none"
+					if via == "skip" {
+						c.SP.Skip = true
+					} else {
+						mode = "assertions"
+					}
+					root, err = gridGenuine(c.SP, 1, mode).Tree()
+				} else {
+					if via == "skip" {
+						c.SP.Skip = true
+					}
+					root, err = (&h.LogoutIssue{Model: h.PlainLogout(c.SP, kind), NS: h.NSStyle{P: "samlp", A: "saml"}}).Tree()
+				}
+				if err != nil {
+					t.Fatalf("harness: %v", err)
+				}
+				if (vi+si)%2 == 0 {
+					c.Prolog = pad(size)
+				} else {
+					c.Epilog = pad(size)
+				}
+				xml := append(append([]byte(c.Prolog), h.Serialize(root, h.Layout{})...), c.Epilog...)
+				c.Prolog, c.Epilog = fmt.Sprintf("(%d-byte comment)", len(c.Prolog)), fmt.Sprintf("(%d-byte comment)", len(c.Epilog))
+				deflate := size < 5<<20 && vi == 0 // within the limit: also the compressed presentation
+				c.Encoded = h.Encode(xml, h.Presentation{Deflate: deflate, Level: 6})
+				if size > 5<<20 && vi == 1 {
+					c.SP.MaxSize = 16 << 20 // an explicit, larger limit must not matter for uncompressed input either
+				}
+				cases = append(cases, c)
+			}
+		}
+	}
+	h.RunCases(t, "C20", cases, checkC20)
+}
